@@ -5,6 +5,8 @@ package transport
 import (
 	"crypto/rand"
 	"time"
+
+	"hop.computer/hop/certs"
 )
 
 // White-box access for the verification harness (overlay-injected, never committed to /repo).
@@ -115,3 +117,6 @@ func verifClientCerts(leaf, intermediate []byte, err error) ([]byte, []byte, err
 	}
 	return leaf, intermediate, err
 }
+
+// VerifHandleWithLeaf is a Handle that only answers FetchClientLeaf (for handler-level harnesses).
+func VerifHandleWithLeaf(leaf *certs.Certificate) *Handle { return &Handle{clientLeaf: leaf} }
